@@ -395,13 +395,25 @@ func lineSafeName(n string) bool {
 // replyOracle is the reply discipline of the statement evaluated on what the client
 // wrote for e (default table).
 func replyOracle(x *ctcpSess, e *girc.Event, lines []string) string {
-	if len(lines) > 1 {
-		return fmt.Sprintf("reply-count: %d lines written for one event", len(lines))
-	}
 	if len(lines) == 0 {
 		return ""
 	}
 	l := lines[0]
+	if len(lines) > 1 {
+		// Client.Send may split one over-long answer into several lines, each repeating
+		// "NOTICE target :\x01COMMAND " (C11's subject); anything else is a second answer
+		head := l
+		if i := strings.Index(l, " :\x01"); i >= 0 {
+			if j := strings.IndexByte(l[i+3:], ' '); j >= 0 {
+				head = l[:i+3+j+1]
+			}
+		}
+		for _, o := range lines[1:] {
+			if head == l || !strings.HasPrefix(o, head) {
+				return fmt.Sprintf("reply-count: %d answers written for one event", len(lines))
+			}
+		}
+	}
 	switch {
 	case e.Command == "NOTICE":
 		return "reply-to-notice: an automatic answer to a NOTICE"
@@ -416,7 +428,7 @@ func replyOracle(x *ctcpSess, e *girc.Event, lines []string) string {
 		return "reply-to-non-ctcp: an automatic answer to a message that is not CTCP"
 	case d.cmd == "ACTION":
 		return "reply-to-action: an automatic answer to ACTION"
-	case !isKnownCTCP(d.cmd) && !specNick(specFold(e.Source.Name)):
+	case !isKnownCTCP(d.cmd) && !specNick(specFold(e.Source.Name)) && !specNick(e.Source.Name):
 		return "errmsg-to-invalid-nick: ERRMSG sent to a source that is not a nickname"
 	}
 	if !strings.HasPrefix(l, "NOTICE ") {
@@ -424,7 +436,7 @@ func replyOracle(x *ctcpSess, e *girc.Event, lines []string) string {
 	}
 	if lineSafeName(e.Source.Name) {
 		p := girc.ParseEvent(l)
-		if p == nil || p.Command != "NOTICE" || len(p.Params) != 2 || p.Params[0] != specFold(e.Source.Name) {
+		if p == nil || p.Command != "NOTICE" || len(p.Params) != 2 || specFold(p.Params[0]) != specFold(e.Source.Name) {
 			return "reply-target: the answer does not go to the requester"
 		}
 		if t := p.Params[1]; len(t) < 3 || t[0] != 1 || t[len(t)-1] != 1 {
@@ -911,7 +923,7 @@ func tableOracle(ref map[string]string, keys []string, e *girc.Event, lines []st
 			errmsg++
 		}
 	}
-	if errmsg > 0 && (has || d.reply || d.cmd == "ACTION" || e.Source == nil || !specNick(specFold(e.Source.Name))) {
+	if errmsg > 0 && (has || d.reply || d.cmd == "ACTION" || e.Source == nil || (!specNick(specFold(e.Source.Name)) && !specNick(e.Source.Name))) {
 		return "table-errmsg: ERRMSG although a handler exists, or to a reply, ACTION or unattributable request"
 	}
 	if errmsg > 1 || len(rest)-errmsg > nRepliers {
